@@ -59,6 +59,26 @@ CHECKS["C03"] = dict(
    text="(a) For 31 receiver kinds x every attribute name of every implementation class (collected reflectively), the Python dunder vocabulary and fresh names, the observation through read/typeof/in/hasOwnProperty/keys/for-in/call/new/instanceof/stringify/prototype use/delete/write-then-read and dot forms must equal the observation for a certainly-unknown name, unless ES defines the name for that receiver kind. (b) Every result of every discovered built-in member on adversarial arguments, and everything reachable from the globals of 383 corpus programs, is passed to inspect(): only JS primitives, JSObject-family objects, JSFunctions and microjs-defined or exposed callables may appear; eval/get results are type-checked likewise. (c) Exposed functions in 25 non-calling positions are never invoked and in calling positions exactly as written.",
    note="ES-defined names per receiver kind are frozen from node 20 at development time (golden/es_receiver_names.json); the engine's array-valued arguments object is treated as an array. An open-world negative claim: gadget chains outside the access-form grammar are not reached.",
    ref="4/C03")
+CHECKS["C04"] = dict(
+   technique="grammar-free and grammar-aware source fuzzing (character soup, token soup, token-level corpus mutations, prefixes) plus adversarial calls of every discovered built-in, oracle = exception family + metamorphic position shift",
+   text="(a) 78 000 (1e6) generated sources, repaired to nesting depth <= 30, must evaluate to a value or a microjs JSError; a JSSyntaxError must point inside the source and its position must shift by exactly k under k leading newlines (and k leading spaces for errors on line 1); nothing hangs. (b) every function-valued member of 37 receiver kinds and every global function is called with singles, pairs and triples from a 34-value adversarial grid in five call forms inside a script-level try/catch: no host exception may escape. Foreign exceptions are bucketed by (type, innermost microjs frame) and bisected to one call.",
+   note="Nesting deeper than 30 is out of scope (README). MemoryError on requests tagged huge is counted resource_excluded. Thorough adds every prefix of every small corpus program.",
+   ref="4/C04")
+CHECKS["C10"] = dict(
+   technique="Hypothesis pattern/flag soup and single-mutation patterns through every construction entry point; 43 catastrophic-backtracking families with exact step accounting through the public poll callback; optional atheris campaign",
+   text="Construction: 84 800 pattern strings (metacharacter soup incl. NUL/U+2028/non-BMP, valid patterns with one mutation of every listed kind, flag strings) through microjs.regex.RegExp, new RegExp, RegExp(), literals and string-pattern match/search: only RegExpError at the Python API within 2 CPU-s and a linear program-size bound; at script level success or a SyntaxError the script itself catches, JSError at the boundary. Matching: 43 families x subject lengths up to 1e3 (1e4) at the Python API (steps <= (len+2)(S+1), stack clause), under a 20 ms virtual-clock time limit through 3 constructors x 8 APIs, and without a limit sized by the budget; result or JSError, never the private regex exceptions, bounded CPU/clock reads/RSS.",
+   note="Boundedness is judged against the engine's own step and stack budgets, not wall time. Atheris (thorough) is skipped with a note when unavailable.",
+   ref="4/C10")
+CHECKS["C13"] = dict(
+   technique="exhaustive and random expression trees through a minimal-parenthesis printer (parse(print(t)) == t), metamorphic trivia/parenthesis insertion, print/parse round trip, literal-spelling oracles and rejection of programs invalid by construction",
+   text="All 5 550 two-operator trees, a seed-rotated third (all in thorough) of 140 168 three-operator trees over 62 operator forms and random deeper trees are printed with ES precedence/associativity and with full parentheses and must parse back to the same tree and evaluate typed-equal; generated and all 383 corpus programs are re-rendered with random whitespace/comments/line breaks (never in restricted positions) and redundant parentheses: same tree, same outcome; parse(print(parse(s))) == parse(s); 40 000 number and string literal spellings denote the value of the reference grammar; ~20 000 programs made invalid by construction (missing closer/quote/comment or regex terminator, non-reference assignment/update/for-in targets, stray closer, broken ?:, bare in) must raise JSSyntaxError.",
+   note="Printer, trivia renderer, rejection operators and literal oracles were validated against node 20 at development time (0 disagreements). The engine's tolerance of missing statement separators on one line is not judged.",
+   ref="4/C13")
+CHECKS["C17"] = dict(
+   technique="exhaustive (method, receiver, argument, callback) grid + Hypothesis rule-based state machines on aliased arrays and on typed-array views over one buffer, against list / byte-level reference models",
+   text="34 discovered Array.prototype methods x small receivers x an adversarial index/element grid x a callback pool (identity, predicates, logger, thrower, receiver-mutating, non-boolean) are compared on return value, result identity (fresh vs receiver), receiver contents afterwards, callback call sequence (value, index, array, this) and error class; index/length assignment follows the documented stricter-mode rules; sort is judged by a validity predicate (permutation, undefined last, ordered for consistent comparators, stable). Stateful histories mutate aliased arrays step by step against the list model. Nine typed-array kinds x boundary stored values x constructor/subarray/set forms and random write/read sequences through three views over one ArrayBuffer against a little-endian byte model.",
+   note="Trusts oracles/arrref.py and typedref.py (0 disagreements with node on 191 000 cells at development time; one V8 deviation in fill() excluded).",
+   ref="4/C17")
 NA = {}
 m = {
  "version": 1,
